@@ -134,6 +134,10 @@ pub struct CffFont {
     /// pad local (priv 0) / global subr INDEX to this many entries (bias classes 107 / 1131 / 32768)
     pub pad_lsubrs: u16,
     pub pad_gsubrs: u16,
+    /// trivial extra glyphs (endchar only) appended after the generated ones, so that glyph counts straddle the lengths of
+    /// the predefined charsets (87 / 166 / 229) and glyph-name / charset lookups run past them
+    #[serde(default)]
+    pub pad_glyphs: u16,
     pub off_size: u8,
     /// maxp.numGlyphs - charstring count
     pub maxp_adj: i8,
@@ -808,8 +812,8 @@ fn build_table(f: &CffFont) -> Built {
         }
         ls_enc.push(e);
     }
-    let n = f.glyphs.len();
-    let cs: Vec<Vec<u8>> = f
+    let n = f.glyphs.len() + f.pad_glyphs as usize;
+    let mut cs: Vec<Vec<u8>> = f
         .glyphs
         .iter()
         .enumerate()
@@ -819,6 +823,9 @@ fn build_table(f: &CffFont) -> Built {
             encode_prog(&gl.prog, gl.width.as_ref(), None, &infos[pi], &regions, vs_of(pi))
         })
         .collect();
+    while cs.len() < n {
+        cs.push(if cff2 { vec![] } else { vec![14] });
+    }
     let gsubr_index = index(&gs, cff2, f.off_size);
     let cs_index = index(&cs, cff2, f.off_size);
     // private DICT + local subr INDEX blobs
@@ -1019,7 +1026,7 @@ fn cmap_bytes(num_glyphs: usize) -> Vec<u8> {
 /// The complete OpenType font.
 pub fn build(f: &CffFont) -> Vec<u8> {
     let b = build_table(f);
-    let n = f.glyphs.len();
+    let n = f.glyphs.len() + f.pad_glyphs as usize;
     let num_glyphs = (n as i64 + f.maxp_adj as i64).clamp(0, 65535) as u16;
     let hm: Vec<(u16, i16)> = (0..num_glyphs.max(1) as usize).map(|i| if f.metrics.is_empty() { (600, 0) } else { f.metrics[i % f.metrics.len()] }).collect();
     let mut maxp = vec![];
@@ -1418,7 +1425,7 @@ fn font(cff2: bool) -> impl Strategy<Value = CffFont> {
             proptest::collection::vec(proptest::collection::vec(any::<u8>(), 0..8), 0..3),
         ),
         (
-            prop_oneof![40 => Just(0u16), 1 => Just(1239u16), 2 => Just(1240u16), 1 => Just(1300u16)],
+            (prop_oneof![40 => Just(0u16), 1 => Just(1239u16), 2 => Just(1240u16), 1 => Just(1300u16)], prop_oneof![12 => Just(0u16), 1 => 80u16..95, 1 => 160u16..172, 1 => 224u16..235, 1 => 235u16..400]),
             prop_oneof![40 => Just(0u16), 1 => Just(1239u16), 2 => Just(1240u16), 1 => Just(33900u16)],
             prop_oneof![6 => Just(0u8), 1 => 1u8..=4],
             prop_oneof![10 => Just(0i8), 1 => Just(1i8), 1 => Just(-1i8), 1 => Just(3i8)],
@@ -1432,7 +1439,7 @@ fn font(cff2: bool) -> impl Strategy<Value = CffFont> {
             proptest::bool::weighted(0.9),
         ),
     )
-        .prop_map(move |((upem, glyphs, gsubrs, privs), (cid, fdsel_fmt, fdsel, fdsel_shift), (charset_fmt, charset, strings), (pad_lsubrs, pad_gsubrs, off_size, maxp_adj, metrics, cmap), (axes, regions, ivd, vstore))| CffFont {
+        .prop_map(move |((upem, glyphs, gsubrs, privs), (cid, fdsel_fmt, fdsel, fdsel_shift), (charset_fmt, charset, strings), ((pad_lsubrs, pad_glyphs), pad_gsubrs, off_size, maxp_adj, metrics, cmap), (axes, regions, ivd, vstore))| CffFont {
             cff2,
             upem,
             glyphs,
@@ -1447,6 +1454,7 @@ fn font(cff2: bool) -> impl Strategy<Value = CffFont> {
             strings,
             pad_lsubrs,
             pad_gsubrs,
+            pad_glyphs,
             off_size,
             maxp_adj,
             metrics,
